@@ -539,3 +539,47 @@ Definition g_observe_jobgraph (p : adj * list (node * Z) * list node * list (nod
           vres I (bind (longest_path_w w0 g) (fun path => Ok (sum_w s path)));
           vresl (longest_path_w w0 g) ]
   end.
+
+(* ---------------------------------------------------------------- histories on ONE live graph
+   object: public mutators interleaved with queries.  Every routine above is a pure function
+   of the current adjacency, so the answer expected after a mutation is the routine applied
+   to the graph as it is at that moment (nothing may be remembered from earlier queries). *)
+Inductive hop :=
+| HAddNode (n : node) (cs : list node)     (* add_node / TaskGraph.add_task / JobGraph.add_job *)
+| HAddChild (n c : node)                   (* add_child *)
+| HRemove (n : node)                       (* remove *)
+| HNodes | HSources
+| HTopo
+| HDepth (n : node) (is_max : bool)
+| HDep (u v : node)
+| HLong | HLongW
+| HBfs (start : option node)
+| HDfs (start : option node).
+Definition h_mut (r : result graph) (g : graph) : graph * val :=
+  match r with Ok g' => (g', L [I 0]) | Err e => (g, L [I 1; I e]) end.
+Definition h_step (w : node -> Z) (g : graph) (o : hop) : graph * val :=
+  match o with
+  | HAddNode n cs => h_mut (add_node g n cs) g
+  | HAddChild n c => h_mut (add_child g n c) g
+  | HRemove n => h_mut (remove_node g n) g
+  | HNodes => (g, vlist I (nodes g))
+  | HSources => (g, vlist I (get_sources g))
+  | HTopo => (g, vresl (topological_sort g))
+  | HDepth n mx => (g, vres I (get_node_depth g n mx))
+  | HDep u v => (g, vres vbool (are_dependent g u v))
+  | HLong => (g, vresl (get_longest_path g None))
+  | HLongW => (g, vresl (longest_path_w w g))
+  | HBfs s => (g, vgen (breadth_first_fuel 400 g s))
+  | HDfs s => (g, vgen (depth_first g s))
+  end.
+Fixpoint h_run (w : node -> Z) (g : graph) (ops : list hop) : list val :=
+  match ops with
+  | [] => []
+  | o :: r => let '(g', v) := h_step w g o in v :: h_run w g' r
+  end.
+Definition g_observe_history (c : adj * list (node * Z) * list hop) : val :=
+  let '(m, wt, ops) := c in
+  match of_mapping m with
+  | Err e => L [I 1; I e]
+  | Ok g => L (h_run (w_of wt) g ops)
+  end.
